@@ -113,6 +113,7 @@ fn main() {
             let p = all.iter().find(|p| p.id == id).unwrap_or_else(|| usage());
             let mut run = Run::new(id, tier, seed_from_env(), (k, w), &profile_name());
             run.scale = tier.pick(p.scale.0, p.scale.1);
+            start_progress_watchdog(format!("{} worker {}/{}", id, k, w), std::time::Duration::from_secs(tier.pick(600, 3600)));
             (p.run)(&run);
             let st = run.stats.replace(Stats::default());
             std::fs::write(&args[6], serde_json::to_string(&st).unwrap()).expect("write worker stats");
